@@ -114,10 +114,13 @@ func (g *G) genStored(focus string) storedSpec {
 	if g.chance(0.1) {
 		s.flags = append(s.flags, pick(g, `no-cache="X-Secret"`, `no-cache="X-Secret"`, `no-cache="ETag"`, `no-cache="Last-Modified, Etag"`,
 			// the fields the cache itself sets on what it serves: naming them withholds the ORIGIN's, not the cache's own
-			`no-cache="Age"`, `no-cache="age, X-Secret"`, `no-cache="X-Httpcache-Status, X-From-Cache"`))
+			`no-cache="Age"`, `no-cache="age, X-Secret"`, `no-cache="X-Httpcache-Status, X-From-Cache"`,
+			// the argument is a list of FIELD NAMES: once the quoted-string is unescaped, a quote in one member is a
+			// byte of that (bogus) name and hides nothing after it
+			`no-cache="X-Device\", X-Secret"`, `no-cache="\"x, X-Secret, X-Other"`, `no-cache="X-Junk\""`))
 		if g.chance(0.3) {
 			// the qualified form given twice: the fields of both lists are covered
-			s.flags = append(s.flags, pick(g, `no-cache="X-Other"`, `no-cache="x-other, Date"`, `no-cache=X-Other`))
+			s.flags = append(s.flags, pick(g, `no-cache="X-Other"`, `no-cache="x-other, Date"`, `no-cache=X-Other`, `no-cache="X-Secret"`))
 		}
 	}
 	if s.maxAge != "" && g.chance(0.05) {
